@@ -456,6 +456,52 @@ theorem builder_string_lookaheads_guarded :
        ("snowflake._build_round", "positional_keys[positional_idx]", "positional_idx < len(positional_keys)")] := by
   decide +kernel
 
+/-- `xs[0]` behind a TRUTHINESS guard (`if xs and xs[0] …`) never raises, whatever the list is — None, empty or not -/
+theorem index_first_truthy_guard_safe {α : Type} (xs : Option (List α)) :
+    indexFirst .truthy xs ≠ .indexError ∧ indexFirst .truthy xs ≠ .typeError := by
+  cases xs with
+  | none => simp [indexFirst]
+  | some l => cases l <;> simp [indexFirst]
+
+/-- an `is not None` guard does not dominate the index: the empty list passes it (an identifier whose text tokenizes
+    to zero tokens — empty, blanks, comment-only — in `_parse_types`) -/
+theorem index_first_not_none_guard_index_error :
+    indexFirst (α := Nat) .notNone (some []) = .indexError ∧ indexFirst (α := Nat) .truthy (some []) = .skipped := by
+  decide
+
+/-- every CONSTANT index into a local / attribute list in sqlglot/parser.py and sqlglot/parsers/*.py (ast on this run) sits
+    behind a truthiness or length guard on that list (`is not None` does not count), except the audited sites below —
+    an exact allow-list, decided completely, so a new unguarded `xs[0]` or a guard weakened to `is not None` breaks the
+    build.  Audited: fixed-arity fast paths (`parts[k]` after a length dispatch on another variable), lists that are
+    non-empty by construction (`chunks`, `tags`, `errors`, the token list in `_warn_unsupported`), and recorded clean-tree
+    findings (`bigquery._builder args[1]` = REGEXP_EXTRACT(''), `clickhouse._parse_value expressions[-1]`). -/
+theorem local_list_indexes_guarded :
+    (SqlglotModel.Generated.C05.localListIndexSites.filter (fun x => x.2.2 == "")).map (fun x => (x.1, x.2.1)) =
+    [("bigquery._builder", "args[1]"),
+     ("clickhouse._parse_value", "expressions[-1]"),
+     ("parser._parse", "chunks[-1]"),
+     ("parser._parse_column_parts_fast", "parts[0]"),
+     ("parser._parse_column_parts_fast", "parts[1]"),
+     ("parser._parse_column_parts_fast", "parts[2]"),
+     ("parser._parse_column_parts_fast", "parts[3]"),
+     ("parser._parse_heredoc", "tags[-1]"),
+     ("parser._parse_hint", "self._prev_comments[0]"),
+     ("parser._parse_pipe_syntax_tablesample", "with_.expressions[-1]"),
+     ("parser._parse_string_agg", "args[0]"),
+     ("parser._parse_table_parts_fast", "parts[0]"),
+     ("parser._parse_table_parts_fast", "parts[1]"),
+     ("parser._parse_table_parts_fast", "parts[2]"),
+     ("parser._parse_vector_expressions", "expressions[0]"),
+     ("parser._replace_lambda", "column.parts[0]"),
+     ("parser._warn_unsupported", "self._tokens[-1]"),
+     ("parser._warn_unsupported", "self._tokens[0]"),
+     ("parser.parse_into", "e.errors[0]"),
+     ("parser.parse_into", "errors[-1]"),
+     ("redshift._parse_projections", "projections[-1]"),
+     ("singlestore._parse_vector_expressions", "expressions[0]"),
+     ("singlestore._parse_vector_expressions", "expressions[1]")] := by
+  decide +kernel
+
 end Fmt
 
 /-! ## tokenizer: `_scan` makes progress although sub-scanners rewind -/
